@@ -1423,7 +1423,8 @@ class Config:  # pylint: disable=too-many-instance-attributes
             tree = field.include(self, formatter, filename, tree)
 
         for key, sub_schema in sub_schemas:
-            if tree.get(key):
+            # only a nested tree can hold includes, any other value is rejected when it is set
+            if tree.get(key) and isinstance(tree[key], dict):
                 tree[key] = self._process_includes(
                     sub_schema, tree[key], format_factory
                 )
